@@ -16,7 +16,7 @@ import (
 func c09Str(name string) string { return string([]byte{vrt.ByteIn(name, 'a', 'b')}) }
 
 func c09Header(name string) *head.Header {
-	h := &head.Header{UUID: uuid.UUID(c09Str(name + ".uuid")), Digest: &dsig.Digest{Algorithm: "sha256", Value: c09Str(name + ".dig")}}
+	h := &head.Header{UUID: uuid.UUID("0190c2a6-7c2a-7000-8000-00000000000" + c09Str(name+".uuid")), Digest: &dsig.Digest{Algorithm: "sha256", Value: c09Str(name + ".dig")}}
 	if vrt.Choice(name+".stamp", 2) == 1 {
 		h.Stamps = []*head.Stamp{{Provider: cbc.Key(c09Str(name + ".sp")), Value: c09Str(name + ".sv")}}
 	}
@@ -59,10 +59,8 @@ var (
 // c09Sign produces a signature of the header by key number k: a real JWS natively, a contract stub symbolically.
 func c09Sign(h *head.Header, k int) *dsig.Signature {
 	if vrt.Symbolic() {
-		sig := &dsig.Signature{}
 		cp := *h // the payload is what was signed at this moment
-		vrt.BindSignature(sig, c09Pub[k], &cp)
-		return sig
+		return vrt.NewSignature(c09Pub[k], &cp).(*dsig.Signature)
 	}
 	if c09Priv == nil {
 		c09Priv = []*dsig.PrivateKey{dsig.NewES256Key(), dsig.NewES256Key()}
